@@ -128,6 +128,8 @@ def run_check(prop, tier, seed, bounded=True):
         solver_s += r.get('solver_s', 0)
         for o in r['obligations']:
             o['fuc'] = r['fuc']
+            if hasattr(pm, 'select') and not pm.select(o['name']):
+                continue
             all_obs.append(o)
         for fam, model in (r.get('known_hits') or {}).items():
             for k in known:
@@ -177,22 +179,33 @@ def run_check(prop, tier, seed, bounded=True):
     replay_paths = []
     if violated or bounded_fail:
         exit_code = 1
-        # group violated obligations by family: one replay file per family
+        # group violated obligations by (function, obligation) across configuration variants: one replay file and one
+        # VIOLATION line per group; the models of the group are replayed on the real code until one reproduces
         fams = {}
         for o in violated:
-            fams.setdefault(o['name'], []).append(o)
+            base = o['name'].split('[')[0] + '/' + o['name'].split('/')[-1] if '[' in o['name'] else o['name']
+            fams.setdefault(base, []).append(o)
         n = 0
-        for name, obs in fams.items():
+        for name, obs in list(fams.items())[:12]:
             n += 1
-            o = obs[0]
             rp = os.path.join('replays', prop, f'{_slug(name)}.json')
-            rep = try_native_replay(prop, o, o['fuc'])
-            doc = {'property': prop, 'obligation': name, 'function': o['fuc'], 'status': 'violated',
-                   'solver': o.get('backend'), 'models': [x.get('model') for x in obs[:5]],
-                   'paths': [x.get('path') for x in obs[:5]], 'raised_at': o.get('line'),
-                   'native_replay': rep, 'tier': tier}
+            rep = {'reproduced': None, 'detail': 'no model'}
+            used = obs[0]
+            tried = []
+            for o in obs[:6]:
+                rep = try_native_replay(prop, o, o['fuc'])
+                tried.append({'function': o['fuc'], 'model': o.get('model'), 'native_replay': rep})
+                used = o
+                if rep.get('reproduced'):
+                    break
+            doc = {'property': prop, 'obligation': used['name'], 'obligation_family': name, 'function': used['fuc'], 'status': 'violated',
+                   'solver': used.get('backend'), 'models': [used.get('model')] + [x.get('model') for x in obs[:5] if x is not used],
+                   'variants_failing': sorted(set(x['fuc'] for x in obs))[:40],
+                   'paths': [x.get('path') for x in obs[:5]], 'raised_at': used.get('line'),
+                   'native_replay': rep, 'replays_tried': tried, 'tier': tier,
+                   'verifier_output': {'status': 'sat (counter-model to the negated obligation)', 'model': used.get('model')}}
             with open(os.path.join(VERIF, rp), 'w') as f:
-                json.dump(doc, f, indent=1)
+                json.dump(doc, f, indent=1, default=str)
             suffix = '' if rep.get('reproduced') else ' no-failing-input-found'
             out_lines.append(f'VIOLATION property={prop} replay={rp}{suffix}')
             replay_paths.append(rp)
@@ -264,7 +277,9 @@ def run_check(prop, tier, seed, bounded=True):
         ev['coverage']['evaluations'] = int(bres.get('cases', 0))
         ev['coverage']['distinct_nontrivial'] = int(bres.get('distinct_nontrivial', 0))
         ev['coverage']['rule'] = bres.get('rule', '')
-    with open(os.path.join(VERIF, 'evidence', f'{prop}.json'), 'w') as f:
+    evdir = os.environ.get('VERIF_EVIDENCE_DIR') or os.path.join(VERIF, 'evidence')
+    os.makedirs(evdir, exist_ok=True)
+    with open(os.path.join(evdir, f'{prop}.json'), 'w') as f:
         json.dump(ev, f, indent=1, default=str)
 
     print(f'[{prop}] tier={tier} functions={len(fucs)} obligations={len(all_obs)} discharged={len(discharged)} '
